@@ -2351,4 +2351,140 @@ theorem leaky_resumed_ints' :
       = [((0, 0, 0), 1, 0), ((1, 1, 0), 1, 10)] := by
   decide +kernel
 
+/-! ## phase 5: PMF / learning_info learners in the SequentialCB experiment model -/
+
+section seqx
+variable {σ V R P : Type} [DecidableEq V] [Coba.C06.RewardFn R V] (w : SeqWorldX σ V R P)
+
+/-- a world without extended learner objects is the phase-4 world -/
+theorem seqCompsX_plain' (w0 : SeqWorld σ V R P) : seqCompsX ⟨w0, fun _ => none⟩ = seqComps w0 := rfl
+
+/-- an ordinary learner object of an extended world is evaluated as in phase 4 -/
+theorem evalS_seqCompsX_plain (seed : Nat) (t : Triple) (hx : w.ext t.2.1 = none) :
+    evalS (seqCompsX w) seed t = evalS (seqComps w.base) seed t := by
+  obtain ⟨e, l, v⟩ := t
+  simp only [evalS, seqCompsX, seqComps, seqEvalX] at hx ⊢
+  rw [hx]; rfl
+
+theorem evalS_seqCompsX_ext (seed : Nat) (t : Triple) (x : SeqExt σ V) (hx : w.ext t.2.1 = some x)
+    (inter : List (Coba.C06.Dict (Coba.C06.Fld V R))) (henv : w.base.envRows t.1 = .ok inter) :
+    evalS (seqCompsX w) seed t =
+      (seqEvalExt w.base t.2.2 t.1 (t.2.1, w.base.init t.2.1) (effSeed (seqCompsX w) seed t.2.2) inter x).1 := by
+  obtain ⟨e, l, v⟩ := t
+  simp only [evalS, seqCompsX, seqEvalX] at hx henv ⊢
+  rw [hx]; dsimp only; rw [henv]
+
+theorem effSeed_seqCompsX (seed v : Nat) : effSeed (seqCompsX w) seed v = (w.base.valSeed v).getD seed := rfl
+
+/-- rows of a triple whose learner answers with PMFs: `SequentialCB.evaluate` on the pristine learner behind a
+`SafeLearner` whose generator is freshly seeded with the evaluator's seed or else the experiment seed -/
+theorem sequentialCB_pmf_rows' (cfg : Cfg) (picks : List Nat) (seed : Nat) (ts : List Triple) (t : Triple) (ht : t ∈ ts)
+    (Pm : Coba.C06.PmfLearner σ V) (dflt : V) (hx : w.ext t.2.1 = some (.pmf Pm dflt))
+    (inter : List (Coba.C06.Dict (Coba.C06.Fld V R))) (henv : w.base.envRows t.1 = .ok inter) :
+    (run (seqCompsX w) cfg picks seed ts).rowsOf (idKey ts t) =
+      match Coba.C06.evaluate (w.base.cfgOf t.2.2) (Coba.C06.wrapPmf Pm dflt) (w.base.batch t.1) inter
+              (w.base.init t.2.1, Coba.C05.normInt (Int.ofNat ((w.base.valSeed t.2.2).getD seed))) with
+      | .ok r => numbered r.2.2
+      | .rejected _ => []
+      | .crashed _ => [] := by
+  rw [rowsOf_run' (seqCompsX w) cfg picks seed ts t ht, evalS_seqCompsX_ext w seed t _ hx inter henv, effSeed_seqCompsX]
+  simp only [seqEvalExt]
+  generalize Coba.C06.evaluate (w.base.cfgOf t.2.2) (Coba.C06.wrapPmf Pm dflt) (w.base.batch t.1) inter
+    (w.base.init t.2.1, Coba.C05.normInt (Int.ofNat ((w.base.valSeed t.2.2).getD seed))) = o
+  cases o <;> rfl
+
+/-- rows of a triple whose learner writes `learning_info` (un-batched environment): the yielded rows of `evaluateI` on
+the pristine learner — the info of an interaction is in that interaction's row and nowhere else -/
+theorem sequentialCB_info_rows' (cfg : Cfg) (picks : List Nat) (seed : Nat) (ts : List Triple) (t : Triple) (ht : t ∈ ts)
+    (L : Coba.C06.InfoLearner σ V) (hx : w.ext t.2.1 = some (.info L))
+    (inter : List (Coba.C06.Dict (Coba.C06.Fld V R))) (henv : w.base.envRows t.1 = .ok inter)
+    (hb : w.base.batch t.1 = none) :
+    (run (seqCompsX w) cfg picks seed ts).rowsOf (idKey ts t) =
+      match Coba.C06.evaluateI (w.base.cfgOf t.2.2) L inter (w.base.init t.2.1) with
+      | .ok r => numbered r.2.2.1
+      | .rejected _ => []
+      | .crashed _ => [] := by
+  rw [rowsOf_run' (seqCompsX w) cfg picks seed ts t ht, evalS_seqCompsX_ext w seed t _ hx inter henv]
+  simp only [seqEvalExt, hb]
+  generalize Coba.C06.evaluateI (w.base.cfgOf t.2.2) L inter (w.base.init t.2.1) = o
+  cases o <;> rfl
+
+/-- an ordinary learner object keeps its phase-4 rows in an extended world, whatever the other learner objects are -/
+theorem sequentialCB_ext_plain_rows' (cfg : Cfg) (picks : List Nat) (seed : Nat) (ts : List Triple) (t : Triple) (ht : t ∈ ts)
+    (hx : w.ext t.2.1 = none) :
+    (run (seqCompsX w) cfg picks seed ts).rowsOf (idKey ts t) =
+      (run (seqComps w.base) cfg picks seed ts).rowsOf (idKey ts t) := by
+  rw [rowsOf_run' (seqCompsX w) cfg picks seed ts t ht, rowsOf_run' (seqComps w.base) cfg picks seed ts t ht,
+    evalS_seqCompsX_plain w seed t hx]
+
+theorem sequentialCB_ext_read_failure' (cfg : Cfg) (picks : List Nat) (seed : Nat) (ts : List Triple) (t : Triple)
+    (ht : t ∈ ts) (err : Err) (henv : w.base.envRows t.1 = .error err) :
+    (run (seqCompsX w) cfg picks seed ts).rowsOf (idKey ts t) = [] := by
+  rw [rowsOf_run' (seqCompsX w) cfg picks seed ts t ht]
+  obtain ⟨e, l, v⟩ := t
+  simp only [evalS, seqCompsX, seqEvalX, seqEval] at henv ⊢
+  cases hx : w.ext l <;> simp [henv]
+
+/-- batched environment, answers with `len` items per row, first batch of exactly `len` rows: the rows are those of
+`SequentialCB.evaluate` on the learner seen through the probing `SafeLearner` (`probeWrap`) -/
+theorem sequentialCB_probe_rows' (cfg : Cfg) (picks : List Nat) (seed : Nat) (ts : List Triple) (t : Triple) (ht : t ∈ ts)
+    (L : Coba.C06.Learner σ V) (len n : Nat) (hx : w.ext t.2.1 = some (.rowLen L len))
+    (inter : List (Coba.C06.Dict (Coba.C06.Fld V R))) (henv : w.base.envRows t.1 = .ok inter)
+    (hb : w.base.batch t.1 = some n) (hsq : min n inter.length = len) :
+    (run (seqCompsX w) cfg picks seed ts).rowsOf (idKey ts t) =
+      match Coba.C06.evaluate (w.base.cfgOf t.2.2) (probeWrap L len) (some n) inter (w.base.init t.2.1, 0, none) with
+      | .ok r => numbered r.2.2
+      | .rejected _ => []
+      | .crashed _ => [] := by
+  rw [rowsOf_run' (seqCompsX w) cfg picks seed ts t ht, evalS_seqCompsX_ext w seed t _ hx inter henv]
+  simp only [seqEvalExt, hb, hsq, if_true]
+  generalize Coba.C06.evaluate (w.base.cfgOf t.2.2) (probeWrap L len) (some n) inter (w.base.init t.2.1, 0, none) = o
+  cases o <;> rfl
+
+/-- … and in every other case (un-batched, or the first batch is not square) no probe is made: phase-4 rows -/
+theorem sequentialCB_noprobe_rows' (cfg : Cfg) (picks : List Nat) (seed : Nat) (ts : List Triple) (t : Triple) (ht : t ∈ ts)
+    (L : Coba.C06.Learner σ V) (len : Nat) (hx : w.ext t.2.1 = some (.rowLen L len))
+    (inter : List (Coba.C06.Dict (Coba.C06.Fld V R))) (henv : w.base.envRows t.1 = .ok inter)
+    (hsq : ∀ n, w.base.batch t.1 = some n → min n inter.length ≠ len) :
+    (run (seqCompsX w) cfg picks seed ts).rowsOf (idKey ts t) =
+      match Coba.C06.evaluate (w.base.cfgOf t.2.2) L (w.base.batch t.1) inter (w.base.init t.2.1) with
+      | .ok r => numbered r.2.2
+      | .rejected _ => []
+      | .crashed _ => [] := by
+  rw [rowsOf_run' (seqCompsX w) cfg picks seed ts t ht, evalS_seqCompsX_ext w seed t _ hx inter henv]
+  simp only [seqEvalExt]
+  cases hb : w.base.batch t.1 with
+  | none =>
+    dsimp only
+    generalize Coba.C06.evaluate (w.base.cfgOf t.2.2) L none inter (w.base.init t.2.1) = o
+    cases o <;> rfl
+  | some n =>
+    dsimp only
+    rw [if_neg (hsq n hb)]
+    generalize Coba.C06.evaluate (w.base.cfgOf t.2.2) L (some n) inter (w.base.init t.2.1) = o
+    cases o <;> rfl
+
+omit [DecidableEq V] [Coba.C06.RewardFn R V] in
+/-- the probing wrapper answers every `predict` exactly as the learner itself does from the same state -/
+theorem probeWrap_answer (L : Coba.C06.Learner σ V) (k : Nat) (st : σ × Nat × Option (Option V × Option (List V)))
+    (ctx : Option V) (acts : Option (List V)) :
+    ((probeWrap L k).predict st ctx acts).2 = (L.predict st.1 ctx acts).2 := rfl
+
+omit [DecidableEq V] [Coba.C06.RewardFn R V] in
+/-- … and, as long as the `k`-th predict of the evaluation is not the one being made, moves the state as the learner does -/
+theorem probeWrap_state_no_probe (L : Coba.C06.Learner σ V) (k : Nat) (st : σ × Nat × Option (Option V × Option (List V)))
+    (ctx : Option V) (acts : Option (List V)) (h : st.2.1 + 1 ≠ k) :
+    ((probeWrap L k).predict st ctx acts).1.1 = (L.predict st.1 ctx acts).1 := by
+  simp [probeWrap, h]
+
+omit [DecidableEq V] [Coba.C06.RewardFn R V] in
+/-- the `k`-th predict is followed by one more `predict` on the FIRST call's arguments -/
+theorem probeWrap_state_probe (L : Coba.C06.Learner σ V) (k : Nat) (s : σ) (n : Nat)
+    (first : Option V × Option (List V)) (ctx : Option V) (acts : Option (List V)) (h : n + 1 = k) :
+    ((probeWrap L k).predict (s, n, some first) ctx acts).1.1 =
+      (L.predict (L.predict s ctx acts).1 first.1 first.2).1 := by
+  simp [probeWrap, h]
+
+end seqx
+
 end Coba.C01
